@@ -164,8 +164,9 @@ class gcvar(object):
         if hasattr(self.category, 'decode'):
             self.category = self.category.decode()
         self.cattracerid = self.catoffset + self.tracerid
-        props = ([row for row in self._parent._tdata
-                  if row['tracerid'] == self.cattracerid] +
+        catprops = [row for row in self._parent._tdata
+                    if row['tracerid'] == self.cattracerid]
+        props = (catprops +
                  [row for row in self._parent._tdata
                   if row['tracerid'] == self.tracerid])[0]
         for pk in props.dtype.names:
@@ -175,6 +176,14 @@ class gcvar(object):
             if hasattr(pv, 'decode'):
                 pv = pv.decode()
             setattr(self, pk, pv)
+        if len(catprops) == 0:
+            # no line for this category and tracer: only the name of the
+            # plain tracer number applies; its scale and unit do not
+            self.scale = 1.
+            bunits = self.base_units
+            if hasattr(bunits, 'decode'):
+                bunits = bunits.decode()
+            self.units = bunits.strip()
 
     def __getattr__(self, k):
         try:
